@@ -699,6 +699,11 @@ impl Session {
     }
 
     fn spawn_tracker(&mut self) {
+        // Tracker job retries until it gets response, so one job at a time is enough
+        if self.tracker.job.is_some() {
+            return;
+        }
+
         let mut tracker = TrackerClient::new(
             &self.own_id,
             self.metainfo.clone(),
